@@ -148,12 +148,12 @@ CHECKS = {
         category="model_checking",
         text="The standards are transcribed in TLA+ (FIPS 180-4 SHA-1/SHA-2 incl. truncated variants, RFC 1319/1320/1321 MD2/MD4/MD5, RIPEMD-160, FIPS 202 / SP 800-185 / "
              "RFC 9861 Keccak-p, SHA-3, SHAKE, cSHAKE, KMAC, TupleHash, TurboSHAKE, KangarooTwelve, RFC 7693 BLAKE2b/s, RFC 2104 HMAC over 15 hashes, SP 800-38B CMAC over "
-             "AES/DES/3DES/RC2, Poly1305) and TLC computes from them the expected digest, XOF output or tag for every recorded call of the real library and the expected "
+             "AES/DES/3DES/RC2/Blowfish/CAST-128, Poly1305) and TLC computes from them the expected digest, XOF output or tag for every recorded call of the real library and the expected "
              "verdict for every tag offered to verify()/hexverify() (genuine, bit flips, truncated, extended, empty, other message). The chunk automaton of KangarooTwelve.py "
              "is an object-layer model that TLC checks exhaustively against RFC 9861's definition with symbolic bytes (it found F9) and whose histories are replayed on the real object.",
         design_ref="DESIGN.md section 6, C03",
         note="Trusted: TLC; the TLA+ transcriptions, each pinned by its standard's vectors (and hashlib/OpenSSL-produced vectors) as ASSUMEs checked at setup. TLC is a reference "
-             "evaluator for the values (inputs are sampled at boundary lengths), a model checker for the K12 automaton. CMAC over Blowfish/CAST-128 is not judged yet.",
+             "evaluator for the values (inputs are sampled at boundary lengths), a model checker for the K12 automaton.",
         technique="standards transcribed as a TLA+ data layer evaluated by TLC on recorded calls (trace validation); TLA+ model of the K12 chunk automaton checked exhaustively and replayed",
     ),
     "C07": dict(
